@@ -2,6 +2,7 @@
 C15 part B: the scoping invariant of NameFixPass and the induction over the traversal.
 -/
 import IrVerif.Lemmas.NamesFix
+import IrVerif.Lemmas.NamesOrder
 namespace IrVerif.Names
 
 /-- what the postcondition says about one list `L` of values that are visible together -/
@@ -9,6 +10,8 @@ structure ScopeOK (c : Cfg) (st : FixSt) (L : List Nat) : Prop where
   inj : ∀ a ∈ L, ∀ b ∈ L, a ≠ b → st.vname a ≠ st.vname b
   seen : ∀ u ∈ L, u ∈ st.seen ∧ truthy (st.vname u) = true
   kept : ∀ v ∈ L, truthy (c.orig v) = true → (∀ u ∈ L, u ≠ v → c.orig u ≠ c.orig v) → st.vname v = c.orig v
+  /-- `L` is in visiting order: the first holder of a name keeps it -/
+  first : FirstB c.orig st.vname L
 
 /-- `V` = the values recorded in the innermost scope: the innermost used-name set is exactly the
 set of their names -/
@@ -27,19 +30,23 @@ theorem Frame.trans {a b c : FixSt} (h1 : Frame a b) (h2 : Frame b c) : Frame a 
 theorem ScopeOK.frame {c : Cfg} {st st' : FixSt} {L : List Nat} (h : ScopeOK c st L) (f : Frame st st') :
     ScopeOK c st' L := by
   have e : ∀ u ∈ L, st'.vname u = st.vname u := fun u hu => f.names u (h.seen u hu).1
-  refine ⟨?_, ?_, ?_⟩
+  refine ⟨?_, ?_, ?_, ?_⟩
   · intro a ha b hb hab; rw [e a ha, e b hb]; exact h.inj a ha b hb hab
   · intro u hu; rw [e u hu]; exact ⟨f.seen u (h.seen u hu).1, (h.seen u hu).2⟩
   · intro v hv h1 h2; rw [e v hv]; exact h.kept v hv h1 h2
+  · exact h.first.fin_eq e
 
-theorem ScopeOK.congr {c : Cfg} {st : FixSt} {L L' : List Nat} (h : ScopeOK c st L) (e : ∀ x, x ∈ L' ↔ x ∈ L) :
+theorem ScopeOK.congr {c : Cfg} {st : FixSt} {L L' : List Nat} (h : ScopeOK c st L) (e : ∀ x, x ∈ L' ↔ x ∈ L)
+    (ho : ∀ v ∈ L', ∀ u ∈ before v L, u ∈ before v L' ∨ c.orig u ≠ c.orig v) :
     ScopeOK c st L' :=
   ⟨fun a ha b hb => h.inj a ((e a).mp ha) b ((e b).mp hb), fun u hu => h.seen u ((e u).mp hu),
-   fun v hv h1 h2 => h.kept v ((e v).mp hv) h1 (fun u hu => h2 u ((e u).mpr hu))⟩
+   fun v hv h1 h2 => h.kept v ((e v).mp hv) h1 (fun u hu => h2 u ((e u).mpr hu)),
+   h.first.transfer (fun v hv => (e v).mp hv) ho⟩
 
-theorem Good.congr {c : Cfg} {st : FixSt} {V V' : List Nat} (h : Good c st V) (e : ∀ x, x ∈ V' ↔ x ∈ V) :
+theorem Good.congr {c : Cfg} {st : FixSt} {V V' : List Nat} (h : Good c st V) (e : ∀ x, x ∈ V' ↔ x ∈ V)
+    (ho : ∀ v ∈ V', ∀ u ∈ before v V, u ∈ before v V' ∨ c.orig u ≠ c.orig v) :
     Good c st V' :=
-  { toScopeOK := h.toScopeOK.congr e
+  { toScopeOK := h.toScopeOK.congr e ho
     top_iff := fun s => (h.top_iff s).trans
       ⟨fun ⟨u, hu, hs⟩ => ⟨u, (e u).mpr hu, hs⟩, fun ⟨u, hu, hs⟩ => ⟨u, (e u).mp hu, hs⟩⟩ }
 
@@ -63,13 +70,30 @@ theorem processValue_Good {c : Cfg} (hc : c.OK) {st : FixSt} (inv : TInv c st) {
   have pv := processValue_PV hc inv hC
   by_cases hv : v ∈ st.seen
   · rw [pv.noop hv]
-    exact good.congr (fun x => by simp only [List.mem_append, List.mem_singleton]; exact ⟨fun h => h.elim id (fun e => e ▸ hsc hv), Or.inl⟩)
+    refine good.congr (fun x => by simp only [List.mem_append, List.mem_singleton]; exact ⟨fun h => h.elim id (fun e => e ▸ hsc hv), Or.inl⟩) ?_
+    intro x hx u hu
+    have hxV : x ∈ V := (List.mem_append.mp hx).elim id (fun e => by simp at e; exact e ▸ hsc hv)
+    rw [before_append_mem _ hxV]; exact Or.inl hu
   · obtain ⟨n, hn, hnne, hntop, hstk, hnres, hnkeep⟩ := pv.fresh hv
     have hvV : v ∉ V := fun h => hv (good.seen v h).1
     have hoth : ∀ u ∈ V, (processValue st v).vname u = st.vname u :=
       fun u hu => pv.others u (fun e => hvV (e ▸ hu))
     have htop : topOf (processValue st v).vstack = n :: topOf st.vstack := by rw [hstk]; rfl
-    refine { inj := ?_, seen := ?_, kept := ?_, top_iff := ?_ }
+    -- the value just processed: if its original name was not in the used set it is kept
+    have hnew : truthy (c.orig v) = true → (∀ u ∈ V, c.orig u ≠ c.orig v) → (processValue st v).vname v = c.orig v := by
+      intro h1 h2
+      have horig : st.vname v = c.orig v := inv.unseen v hv
+      obtain ⟨s, hs, hsne⟩ := truthy_iff.mp h1
+      have hs' : st.vname v = some s := horig.trans hs
+      have hnot : s ∉ topOf st.vstack := by
+        intro hin
+        obtain ⟨u, hu, hus⟩ := (good.top_iff s).mp hin
+        rcases inv.j1 u with h | ⟨s', e1, e2, _⟩
+        · exact h2 u hu (by rw [← h, hus, hs])
+        · rw [hus] at e1; cases e1
+          exact e2 (hc.res v s hC hs hsne)
+      rw [hn, hnkeep s hs' hsne hnot, hs]
+    refine { inj := ?_, seen := ?_, kept := ?_, first := ?_, top_iff := ?_ }
     · -- inj
       have key : ∀ a ∈ V, (processValue st v).vname a ≠ (processValue st v).vname v := by
         intro a ha e
@@ -105,6 +129,7 @@ theorem processValue_Good {c : Cfg} (hc : c.OK) {st : FixSt} (inv : TInv c st) {
           · rw [hus] at e1; cases e1
             exact e2 (hc.res x s hC hs hsne)
         rw [hn, hnkeep s hs' hsne hnot, hs]
+    · exact (good.first.fin_eq hoth).snoc hvV hnew
     · intro s
       rw [htop, List.mem_cons]
       simp only [List.mem_append, List.mem_singleton]
@@ -177,7 +202,8 @@ theorem ScopeOK.of_VEq {c : Cfg} {st st' : FixSt} {L : List Nat} (h : ScopeOK c 
     ScopeOK c st' L :=
   ⟨fun a ha b hb hab => by rw [e.vname]; exact h.inj a ha b hb hab,
    fun u hu => by rw [e.vname, e.seen]; exact h.seen u hu,
-   fun v hv h1 h2 => by rw [e.vname]; exact h.kept v hv h1 h2⟩
+   fun v hv h1 h2 => by rw [e.vname]; exact h.kept v hv h1 h2,
+   by rw [e.vname]; exact h.first⟩
 
 theorem Good.of_VEq {c : Cfg} {st st' : FixSt} {V : List Nat} (h : Good c st V) (e : VEq st st')
     (et : topOf st'.vstack = topOf st.vstack) : Good c st' V :=
@@ -295,8 +321,19 @@ theorem enterGraph_Lvl {c : Cfg} (hc : c.OK) (iv : Nat → List Nat) (hiv : ∀ 
       · exact Or.inl (Or.inl (Or.inr h))
       · exact Or.inl (Or.inr h)
       · exact Or.inr h)
-  refine ⟨⟨l4.inv, l4.good.congr ?_, ?_, (Frame.of_VEq e0).trans (l1.frame.trans (l2.frame.trans (l3.frame.trans l4.frame)))⟩, ?_⟩
+  have hY : ∀ x, x ∈ X ↔ x ∈ (if isG = true then iv g else []) := by
+    intro x; rw [hX x]; cases isG <;> simp
+  have hlist : V ++ gvals iv g isG ins outs bouts = (V ++ ins ++ outs) ++ (if isG = true then iv g else []) ++ bouts := by
+    simp [gvals, List.append_assoc]
+  refine ⟨⟨l4.inv, l4.good.congr ?_ ?_, ?_, (Frame.of_VEq e0).trans (l1.frame.trans (l2.frame.trans (l3.frame.trans l4.frame)))⟩, ?_⟩
   · intro x; simp only [List.mem_append, hg x, hX x, or_assoc]
+  · -- the initializers were visited in dictionary order at that moment; different initializers of one graph
+    -- had different names, so their relative order does not matter
+    intro x _ u hu
+    rw [hlist]
+    rcases before_seg hY hu with h | ⟨h1, h2, h3⟩
+    · exact Or.inl h
+    · exact Or.inr (fun e => h3 (hc.inj g u x ((hiv g u).mp ((hX u).mp h1).2) ((hiv g x).mp ((hX x).mp h2).2) e))
   · intro x; rw [l4.seenEq x]; simp only [List.mem_append, hg x, hX x, or_assoc]
   · rw [t4, t3, t2, t1, etail]
 
@@ -402,6 +439,7 @@ theorem runTr_Lvl {c : Cfg} (hc : c.OK) (iv : Nat → List Nat) (hiv : ∀ g u, 
       (fun v hv _ => List.mem_append_right _ hv)
     have good2 : Good c (enterGraph (enterGraph st g isG ins outs (bodyOuts body)) g isG ins outs (bodyOuts body)) (V ++ gvals iv g isG ins outs (bodyOuts body)) :=
       l2.good.congr (fun x => by simp only [List.mem_append]; exact ⟨Or.inl, fun h => h.elim id Or.inr⟩)
+        (fun x hx u hu => by rw [before_append_mem _ hx] at hu; exact Or.inl hu)
     have hS2 : ∀ x, x ∈ (enterGraph (enterGraph st g isG ins outs (bodyOuts body)) g isG ins outs (bodyOuts body)).seen ↔ x ∈ S ++ gvals iv g isG ins outs (bodyOuts body) := by
       intro x; rw [l2.seenEq x]; simp only [List.mem_append]; exact ⟨fun h => h.elim id Or.inr, Or.inl⟩
     -- the body
